@@ -45,20 +45,6 @@ def sampleOp (kind : String) (s p : Float) (pInt shift : Nat) (script : List Nat
 
 /-! ### `dp_for_histogram`, DiscreteLaplace: three passes over `B` buckets -/
 
-/-- one `apply_laplace_noise_pass`: the generating pair draws `B` samples from its shared stream
-(`std::array::from_fn(|_i| sample_shares(rng, …))`), each placed as `(sample − n) mod 2^w`, and adds the noise
-vector to the histogram with `integer_add(noise, histogram)` (carry dropped). `none` = stream exhausted. -/
-def e2ePass (pInt shift w : Nat) (modulus : Nat) : List Nat → List Nat → Option (List Nat)
-  | [], _ => some []
-  | h :: hs, script =>
-    match truncatedSample pInt shift (script.length + 1) script with
-    | none => none
-    | some (sample, rest) =>
-      let noise := symmetricSample modulus w sample shift
-      let sum := IpaVerif.Circuits.val (IpaVerif.Circuits.integerAdd IpaVerif.Circuits.plainAlg []
-        (IpaVerif.Circuits.bitsOf w noise) (IpaVerif.Circuits.bitsOf w h)).1
-      (e2ePass pInt shift w modulus hs rest).map (sum :: ·)
-
 def e2eModel (eps delta r p : Float) (ssBits pInt w : Nat) (hist s1 s2 s3 : List Nat) : String :=
   match oprfNew floatArith cap eps delta (2 ^ ssBits) r p with
   | .error e => "err " ++ e.name
